@@ -99,6 +99,22 @@ func verifH_c07_parse() {
 	if n > 0 && fmtb >= 0 {
 		ct[0] = byte(fmtb)
 	}
+	if !verifSymbolic() && (fmtb == 2 || fmtb == 3 || fmtb == 4) {
+		// native instance finder: start the candidate with a real curve point in the requested encoding
+		// (symbolically the curve check is an opaque predicate that may hold for any bytes)
+		k := verifBytes("pointscalar", 32)
+		k[0] &= 0x7f
+		k[31] |= 1
+		if pt, err := c.newPoint().ScalarBaseMult(k); err == nil {
+			enc := pt.Bytes()
+			if fmtb != 4 {
+				enc = pt.BytesCompressed()
+			}
+			if fmtb == 4 || enc[0] == byte(fmtb) {
+				copy(ct, enc)
+			}
+		}
+	}
 	var dopts *DecrypterOpts
 	if order == 1 {
 		dopts = NewPlainDecrypterOpts(C1C2C3)
